@@ -119,6 +119,12 @@ func (d DI) Lines() []string {
 	return ls
 }
 
+// PatchSite is one raw byte edit of the file.
+type PatchSite struct {
+	Off int64
+	B   []byte
+}
+
 // TOpt: "dflt", "det", or an explicit unix time.
 type TOpt struct {
 	Kind string
@@ -198,6 +204,14 @@ type Op struct {
 	Case int
 	// mkimg
 	Img *FImg
+	// integrity
+	V     VOpts
+	Any   bool
+	S     SOpts
+	Blobs [][]byte
+	FP    []byte
+	Raw   []string // protocol lines computed at execution time (facts)
+	Sites []PatchSite
 	// filled in by the executor
 	Now int64
 	Rnd []byte
@@ -263,6 +277,26 @@ func (o *Op) Lines() []string {
 		return []string{"dumpfile path=" + o.Path}
 	case "mkimg":
 		return o.Img.lines(o.Path)
+	case "keys":
+		return getUniverse().keyLines()
+	case "facts":
+		return o.Raw
+	case "verify":
+		return []string{"verify " + o.V.String()}
+	case "signedby":
+		return []string{fmt.Sprintf("signedby any=%d %s", b2i(o.Any), o.V.String())}
+	case "sign":
+		ls := []string{fmt.Sprintf("sign groups=%s objsets=%s ht=1 fp=%s t=%s now=%d nblobs=%d", idList(o.S.Groups), o.S.objsets(), hx(o.FP), o.S.T, o.Now, len(o.Blobs))}
+		for _, b := range o.Blobs {
+			ls = append(ls, "blob h="+hx(b))
+		}
+		return ls
+	case "patch":
+		ls := []string{fmt.Sprintf("patch nsites=%d", len(o.Sites))}
+		for _, p := range o.Sites {
+			ls = append(ls, fmt.Sprintf("ps off=%d hex=%s", p.Off, hx(p.B)))
+		}
+		return ls
 	}
 	panic("bad op " + o.Kind)
 }
